@@ -129,6 +129,8 @@ def run(ctx):
     cs = repo.func(REL, "collapse_spaces")
     r.idiom("R17.2", [norm(s) for s in cs.node.body if not isinstance(s, ast.Expr)] == ["return SPACES_REGEX.sub(' ', %s)" % cs.params()[0]],
             "replacement", cs.where, "collapse_spaces is not SPACES_REGEX.sub(' ', text)")
+    from . import wslint
+    wslint.run(ctx, "R17.4")
     # R17.3
     raw = set(ce.const("constants.py", "rcdataElements"))
     r.check("R17.3", set(preserve_set) == {"pre", "textarea"} | raw, "preserve-set", cls.where,
